@@ -59,6 +59,9 @@ static bool same(double got, double want)
 // (qualified call on the same object) instead of the Eigen one of AMatrixDense
 template <int NR, int NC, int OP, bool GEN> static void run()
 {
+#ifdef VF_EXCL_S9_NONSQUARE // known-finding exclusion: AMatrixDense row/column scaling of a non-square matrix (S9)
+  if (!GEN && NR != NC) { vf_witness(); return; }
+#endif
   MatrixRectangular M(NR, NC);
   double m0[NR][NC];
   for (int i = 0; i < NR; i++)
